@@ -114,6 +114,11 @@ pub fn map_expr(e: &E, f: &mut dyn FnMut(&E) -> Option<E>) -> E {
         E::Lambda(ps, b) => E::Lambda(ps.clone(), g(b)),
         E::Tuple(v) => E::Tuple(v.iter().map(|x| *g(x)).collect()),
         E::Proj(a, i) => E::Proj(g(a), *i),
+        E::Array(v) => E::Array(v.iter().map(|x| *g(x)).collect()),
+        E::Index(a, i) => {
+            let a2 = g(a);
+            E::Index(a2, g(i))
+        }
         E::Record(fs) => E::Record(fs.iter().map(|(k, v)| (k.clone(), *g(v))).collect()),
         E::Field(a, n) => E::Field(g(a), n.clone()),
         E::Mem(a, s) => E::Mem(g(a), *s),
@@ -233,6 +238,8 @@ fn kind(e: &E) -> &'static str {
         E::Lambda(..) => "lambda",
         E::Tuple(_) => "tuple",
         E::Proj(..) => "proj",
+        E::Array(_) => "array",
+        E::Index(..) => "index",
         E::Record(_) => "record",
         E::Field(..) => "field",
         E::Mem(..) => "mem",
@@ -276,6 +283,8 @@ fn map_children(e: &E, f: &mut dyn FnMut(&E, &'static str) -> E) -> E {
         E::Lambda(ps, b) => E::Lambda(ps.clone(), Box::new(f(b, "lambda_body"))),
         E::Tuple(v) => E::Tuple(v.iter().enumerate().map(|(i, x)| f(x, if i == 0 { "tuple_first_element" } else { "tuple_element" })).collect()),
         E::Proj(a, i) => E::Proj(Box::new(f(a, "projected")), *i),
+        E::Array(v) => E::Array(v.iter().map(|x| f(x, "array_element")).collect()),
+        E::Index(a, i) => E::Index(Box::new(f(a, "indexed")), Box::new(f(i, "index"))),
         E::Record(fs) => E::Record(fs.iter().map(|(k, v)| (k.clone(), f(v, if k == "<-" { "record_update_base" } else { "field_value" }))).collect()),
         E::Field(a, n) => E::Field(Box::new(f(a, "projected")), n.clone()),
         E::Mem(a, s) => E::Mem(Box::new(f(a, "argument")), *s),
